@@ -69,7 +69,7 @@ __CPROVER_ensures(g_clone_calls == OLD(g_clone_calls) + 1 && g_clone_src == valu
 /* a NULL target yields a fresh object; a non-NULL target is cleaned and overwritten in place */
 __CPROVER_ensures((RET == CIF_OK && OLD(*clone) == NULL) ==> (__CPROVER_is_fresh(*clone, sizeof(cif_value_tp)) && g_last_clone == *clone))
 __CPROVER_ensures((RET == CIF_OK && OLD(*clone) != NULL) ==> (*clone == OLD(*clone) && g_last_clone == *clone))
-__CPROVER_ensures(RET != CIF_OK ==> *clone == OLD(*clone))
+__CPROVER_ensures(RET != CIF_OK ==> (*clone == OLD(*clone) && g_last_clone == OLD(g_last_clone)))   /* the ghost tracks the last SUCCESSFUL copy */
 __CPROVER_ensures(OLD(*clone) != NULL ==> (g_last_cleaned == OLD(*clone) && g_clean_calls == OLD(g_clean_calls) + 1))
 __CPROVER_ensures(OLD(*clone) == NULL ==> (g_last_cleaned == OLD(g_last_cleaned) && g_clean_calls == OLD(g_clean_calls)))
 ;
@@ -79,7 +79,7 @@ __CPROVER_requires(__CPROVER_rw_ok(value, sizeof(*value)))
 __CPROVER_assigns(*value, g_last_clone)
 __CPROVER_ensures(RET == CIF_OK || RET == CIF_MEMORY_ERROR || RET == CIF_ERROR || RET == CIF_ARGUMENT_ERROR)
 __CPROVER_ensures(RET == CIF_OK ==> (__CPROVER_is_fresh(*value, sizeof(cif_value_tp)) && g_last_clone == *value && (*value)->kind == kind))
-__CPROVER_ensures(RET != CIF_OK ==> *value == OLD(*value))
+__CPROVER_ensures(RET != CIF_OK ==> (*value == OLD(*value) && g_last_clone == OLD(g_last_clone)))
 ;
 
 void cif_value_free(union cif_value_u *value)
@@ -166,9 +166,10 @@ __CPROVER_ensures((value->kind == CIF_LIST_KIND && index < value->as_list.size &
 size_t g_realloc_oldslots;
 void *realloc(void *ptr, size_t size)
 __CPROVER_requires(size >= g_realloc_oldslots * sizeof(cif_value_tp *) && size <= MAXL * sizeof(cif_value_tp *))
+/* the release of the old block is not modelled (a dfcc frees clause would let the callee free it on the failure path too): use of the old block after a
+ * successful growth is therefore not detected by this job */
 __CPROVER_assigns()
-__CPROVER_frees(ptr)
-__CPROVER_ensures(RET == NULL || (__CPROVER_is_fresh(RET, size) && EACH_L(F_REALLOC) && __CPROVER_was_freed(ptr)))
+__CPROVER_ensures(RET == NULL || (__CPROVER_is_fresh(RET, size) && EACH_L(F_REALLOC)))
 ;
 #endif
 
@@ -176,7 +177,8 @@ int cif_value_insert_element_at(cif_value_tp *value, size_t index, cif_value_tp 
 __CPROVER_requires(__CPROVER_rw_ok(value, sizeof(*value)) && (value->kind == CIF_LIST_KIND ==> LIST_WF(value)))
 __CPROVER_requires(value->kind == CIF_LIST_KIND ==> value->as_list.capacity + (value->as_list.capacity < 10 ? 4 : value->as_list.capacity / 2) <= MAXL)
 __CPROVER_assigns(g_last_clone, g_clone_calls, g_clone_src, g_last_cleaned, g_clean_calls, g_last_freed, g_free_calls;
-        value->kind == CIF_LIST_KIND: value->as_list.elements, value->as_list.size, value->as_list.capacity, __CPROVER_object_whole(value->as_list.elements))
+        value->kind == CIF_LIST_KIND: value->as_list.elements, value->as_list.size, value->as_list.capacity;
+        value->kind == CIF_LIST_KIND && value->as_list.elements != NULL: __CPROVER_object_whole(value->as_list.elements))
 __CPROVER_frees(value->as_list.elements)
 __CPROVER_ensures((value->kind != CIF_LIST_KIND) ==> RET == CIF_ARGUMENT_ERROR)
 __CPROVER_ensures((value->kind == CIF_LIST_KIND && index > OLD(value->as_list.size)) ==> (RET == CIF_INVALID_INDEX && LIST_UNCHANGED(value)))
